@@ -73,14 +73,44 @@ static std::string meshStr(const M& g, size_t maxTri = 40) {
   return s.str();
 }
 
-// An affine image of lattice points: actual = c + s * lattice, exactly
-// representable in double for the (c, s) used here, so orientation predicates
-// on the lattice coordinates are exact for the actual points too.
+// A similarity image of lattice points: actual = c + s * R * lattice.  For the "exact" frames
+// (R = identity, s a power of two, small c) every coordinate is exactly representable, so the
+// cloud is an exact affine image of the lattice.  For the "inexact" frames (s = 0.1 / a rotation)
+// every coordinate is rounded: exactly collinear / coplanar lattice points become collinear /
+// coplanar up to ~1e-16, which is what meshes produced by Refine() etc. look like.  The oracle
+// evaluates all predicates on the integer lattice coordinates and converts to a distance with
+// the scale s; it only reports when that distance exceeds the tolerance (>= 1e-12, four orders
+// of magnitude above the rounding of the actual coordinates), so it is sound for both kinds.
 static const int kListPerProcess = 3;
 struct Frame {
   double cx = 0, cy = 0, cz = 0, s = 1;
   std::string name;  // "" for the identity
-  vec3 at(I3 l) const { return vec3(cx + s * (double)l.x, cy + s * (double)l.y, cz + s * (double)l.z); }
+  bool rot = false;
+  double R[3][3] = {{1, 0, 0}, {0, 1, 0}, {0, 0, 1}};
+  vec3 at(I3 l) const {
+    if (!rot) return vec3(cx + s * (double)l.x, cy + s * (double)l.y, cz + s * (double)l.z);
+    double v[3];
+    for (int i = 0; i < 3; ++i) v[i] = R[i][0] * (double)l.x + R[i][1] * (double)l.y + R[i][2] * (double)l.z;
+    return vec3(cx + s * v[0], cy + s * v[1], cz + s * v[2]);
+  }
+  // rotation about x by a, then y by b, then z by g (degrees)
+  void setRotation(double a, double b, double g) {
+    rot = true;
+    const double k = 3.14159265358979323846 / 180;
+    double ca = cos(a * k), sa = sin(a * k), cb = cos(b * k), sb = sin(b * k), cg = cos(g * k), sg = sin(g * k);
+    double Rx[3][3] = {{1, 0, 0}, {0, ca, -sa}, {0, sa, ca}}, Ry[3][3] = {{cb, 0, sb}, {0, 1, 0}, {-sb, 0, cb}},
+           Rz[3][3] = {{cg, -sg, 0}, {sg, cg, 0}, {0, 0, 1}}, T[3][3];
+    for (int i = 0; i < 3; ++i)
+      for (int j = 0; j < 3; ++j) {
+        T[i][j] = 0;
+        for (int m = 0; m < 3; ++m) T[i][j] += Ry[i][m] * Rx[m][j];
+      }
+    for (int i = 0; i < 3; ++i)
+      for (int j = 0; j < 3; ++j) {
+        R[i][j] = 0;
+        for (int m = 0; m < 3; ++m) R[i][j] += Rz[i][m] * T[m][j];
+      }
+  }
 };
 
 // One Hull(points) case on lattice input.  `in` is the input sequence exactly as passed.
@@ -100,7 +130,7 @@ static void judgeLatticeHull(Ctx& c, const std::string& what, const std::vector<
   auto viol = [&](const char* cls, const std::function<std::string()>& detail) {
     c.count((std::string("v_") + cls).c_str());
     bool systematic = !strcmp(cls, "nonempty-flat") ||
-                      (!F.name.empty() && (!strcmp(cls, "point-outside") || !strcmp(cls, "edge-concave") || !strcmp(cls, "not-positive-volume")));
+                      (F.s < 1e-3 && (!strcmp(cls, "point-outside") || !strcmp(cls, "edge-concave") || !strcmp(cls, "not-positive-volume")));
     if (systematic) {
       bool rep = true;  // representative family: all points in the unit square x=0, y,z in {0,1} / the unit corner
       for (auto& p : in) rep &= (p.x == 0 && p.y <= 1 && p.z <= 1) || (!strcmp(cls, "nonempty-flat") ? false : (p.x == 1 && p.y == 0 && p.z == 0));
@@ -189,7 +219,7 @@ static void judgeLatticeHull(Ctx& c, const std::string& what, const std::vector<
           std::ostringstream s;
           s.precision(6);
           s << "input point #" << i << " " << ptsStr({in[i]}) << " is outside face (" << g.triVerts[3 * t] << "," << g.triVerts[3 * t + 1] << ","
-            << g.triVerts[3 * t + 2] << ") by " << F.s * (double)det / nlen << " > tolerance " << tol << " | " << meshStr(g);
+            << g.triVerts[3 * t + 2] << ") by " << F.s * (double)det / nlen << " > tolerance " << tol << " | Volume()=" << h.Volume() << " | " << meshStr(g);
           return s.str();
         });
         return;
@@ -478,30 +508,51 @@ static std::string judgeSum(Ctx& c, const Solid& X, const Solid& Y, const Manifo
     }
   // (2),(3) grid samples over the sum's box
   Box bb = R.BoundingBox().Union(X.box).Union(Y.box);
-  for (V3 p : gridIn(bb, n, 0.05)) {
-    for (int role = 0; role < 2; ++role) {
-      const Solid& P = role ? Y : X;
-      const Solid& Q = role ? X : Y;
-      const Probe& PP = role ? PY : PX;
-      if (PP.strictlyInside(p)) {
+  std::vector<V3> grid = gridIn(bb, n, 0.05);
+  std::vector<char> inOp[2];
+  for (int role = 0; role < 2; ++role) {
+    const Solid& P = role ? Y : X;
+    const Solid& Q = role ? X : Y;
+    const Probe& PP = role ? PY : PX;
+    inOp[role].assign(grid.size(), 0);
+    for (size_t i = 0; i < grid.size(); ++i)
+      if (PP.strictlyInside(grid[i])) {
+        inOp[role][i] = 1;
         c.count("samples_in_operand");
-        if (!PR.insideOrOn(p)) return "sum-misses-operand|" + v3s(p) + " is strictly inside " + P.name + " (0 is in " + Q.name + ") but outside the sum";
+        if (!PR.insideOrOn(grid[i]))
+          return "sum-misses-operand|" + v3s(grid[i]) + " is strictly inside " + P.name + " (0 is in " + Q.name + ") but outside the sum";
       }
+  }
+  for (V3 p : grid) {
+    if (!PR.strictlyInside(p)) continue;
+    c.count("samples_in_sum");
+    long double dx = PX.distTo(p), dy = PY.distTo(p);
+    if (dx > Y.reach + tolU) {
+      std::ostringstream s;
+      s << "sum-too-far|" << v3s(p) << " is strictly inside the sum but " << (double)dx << " from " << X.name << " > reach(" << Y.name
+        << ") = " << Y.reach;
+      return s.str();
     }
-    if (PR.strictlyInside(p)) {
-      c.count("samples_in_sum");
-      long double dx = PX.distTo(p), dy = PY.distTo(p);
-      if (dx > Y.reach + tolU) {
-        std::ostringstream s;
-        s << "sum-too-far|" << v3s(p) << " is strictly inside the sum but " << (double)dx << " from " << X.name << " > reach(" << Y.name
-          << ") = " << Y.reach;
-        return s.str();
-      }
-      if (dy > X.reach + tolU) {
-        std::ostringstream s;
-        s << "sum-too-far|" << v3s(p) << " is strictly inside the sum but " << (double)dy << " from " << Y.name << " > reach(" << X.name
-          << ") = " << X.reach;
-        return s.str();
+    if (dy > X.reach + tolU) {
+      std::ostringstream s;
+      s << "sum-too-far|" << v3s(p) << " is strictly inside the sum but " << (double)dy << " from " << Y.name << " > reach(" << X.name
+        << ") = " << X.reach;
+      return s.str();
+    }
+  }
+  // (4) p + q for every admissible sample p inside one operand and every vertex q of the other
+  for (int role = 0; role < 2; ++role) {
+    const Solid& P = role ? Y : X;
+    const Solid& Q = role ? X : Y;
+    for (size_t i = 0; i < grid.size(); ++i) {
+      if (!inOp[role][i]) continue;
+      for (auto& qv : Q.verts) {
+        V3 pq = grid[i] + toV(qv);
+        c.count("sample_plus_vertex");
+        if (!PR.insideOrOn(pq))
+          return "sum-misses-sample-sum|p + q = " + v3s(grid[i]) + " + " + v3s(toV(qv)) + " = " + v3s(pq) + " with p strictly inside " + P.name +
+                 " and q a vertex of " + Q.name + " is outside the sum: winding " + std::to_string((double)winding(sr, pq)) +
+                 ", distance to its surface " + std::to_string((double)distToSoup(sr, pq));
       }
     }
   }
@@ -556,6 +607,11 @@ static std::string judgeDiff(Ctx& c, const Solid& X, const Solid& Y, const Manif
 int main(int argc, char** argv) {
   Runner R("C16", argc, argv);
   const bool thorough = R.a.thorough();
+  // --asan-subset (the ASan/UBSan run): only the identity and the rotated frame, 27-point multisets
+  // cut at 4 points, no 2^18-subset phases, coarser Minkowski sample grid.  Phase names and indices
+  // are unchanged, so a replay with the same flag reproduces a case.
+  bool asanSubset = false;
+  for (int i = 1; i < argc; ++i) asanSubset |= !strcmp(argv[i], "--asan-subset");
   std::vector<const char*> HC = {"hulls", "rank3", "rank_lt3", "rank3_ge5distinct", "degenerate_tris", "violations_not_listed",
                                  "v_not-manifold", "v_status", "v_nonempty-flat", "v_empty-rank3", "v_vertex-not-input", "v_point-outside",
                                  "v_edge-concave", "v_not-positive-volume", "v_genus"};
@@ -567,9 +623,12 @@ int main(int argc, char** argv) {
   Frame ident;
   Frame cl30{3, -5, 7, std::ldexp(1.0, -30), "c=(3,-5,7),s=2^-30"};
   Frame cl20{3, -5, 7, std::ldexp(1.0, -20), "c=(3,-5,7),s=2^-20"};
-  Frame cl18{3, -5, 7, std::ldexp(1.0, -18), "c=(3,-5,7),s=2^-18"};
-  Frame cl16{3, -5, 7, std::ldexp(1.0, -16), "c=(3,-5,7),s=2^-16"};
-  std::vector<std::pair<std::string, const Frame*>> frames = {{"lattice", &ident}, {"cluster", &cl30}, {"eps20", &cl20}, {"eps18", &cl18}, {"eps16", &cl16}};
+  Frame tenth{0.3, -0.5, 0.7, 0.1, "c=(0.3,-0.5,0.7),s=0.1"};
+  Frame rotf{0.3, -0.5, 0.7, 1.0, "c=(0.3,-0.5,0.7),s=1,rot=(17,31,47)"};
+  rotf.setRotation(17, 31, 47);
+  std::vector<std::pair<std::string, const Frame*>> frames = {{"lattice", &ident}, {"cluster", &cl30}, {"eps20", &cl20}, {"rot", &rotf}};
+  if (thorough) frames.push_back({"tenth", &tenth});
+  if (asanSubset) frames = {{"lattice", &ident}, {"rot", &rotf}};
 
   auto latticeWhat = [](const Frame& F, const std::vector<I3>& in) {
     return F.name.empty() ? "pts=" + ptsStr(in) : F.name + ",lattice=" + ptsStr(in);
@@ -594,11 +653,12 @@ int main(int argc, char** argv) {
     }, HC);
   }
 
-  // ---- (a1) every multiset of k points of {0,1,2}^3, sorted and reversed, plain and clustered
-  const int kMax = thorough ? 7 : 6;
+  // ---- (a1) every multiset of k points of {0,1,2}^3, sorted and reversed, in every frame
+  const int kMax = asanSubset ? 4 : thorough ? 7 : 6;
   for (int k = 4; k <= kMax; ++k) {
     for (auto& fr : frames) {
       const Frame& F = *fr.second;
+      if (!thorough && k == 6 && fr.first == "eps20") continue;  // quick: the straddling frame stops at 5 points
       uint64_t nm = binom(27 + k - 1, k);
       R.phase("hull-" + fr.first + "-" + std::to_string(k), nm * 2, 4096, [&, k](uint64_t idx, Ctx& c) {
         auto m = unrankMultiset(idx / 2, 27, k);
@@ -607,27 +667,48 @@ int main(int argc, char** argv) {
         if (idx & 1) std::reverse(in.begin(), in.end());
         judgeLatticeHull(c, latticeWhat(F, in), in, F);
         if (idx % 100003 == 0) c.sample(latticeWhat(F, in));
-      }, HC, (size_t)(getenv("C16_LOG2") ? atoi(getenv("C16_LOG2")) : 24));
+      }, HC, k <= 5 ? 19 : k == 6 ? 21 : 23);
     }
   }
 
-  // ---- (a2) every subset of the 3x3x2 slab (18 points: many collinear / coplanar points), sorted and reversed
-  {
-    R.phase("hull-slab-subsets", (1ull << 18) * 2, 4096, [&](uint64_t idx, Ctx& c) {
+  // ---- (a1') every multiset of 5..6 (thorough: 7) points of the 12-point sub-lattice {0,1,2}x{0,1}x{0,1}
+  //      (collinear triples along x, many coplanar quadruples), sorted and reversed, in every frame: the
+  //      part of (a1) that is small enough for the sanitizer run
+  for (int k = 5; k <= (thorough ? 7 : 6); ++k) {
+    for (auto& fr : frames) {
+      const Frame& F = *fr.second;
+      uint64_t nm = binom(12 + k - 1, k);
+      R.phase("hull12-" + fr.first + "-" + std::to_string(k), nm * 2, 512, [&, k](uint64_t idx, Ctx& c) {
+        auto m = unrankMultiset(idx / 2, 12, k);
+        std::vector<I3> in;
+        for (int i : m) in.push_back({i / 4, (i / 2) % 2, i % 2});
+        if (idx & 1) std::reverse(in.begin(), in.end());
+        judgeLatticeHull(c, latticeWhat(F, in), in, F);
+        if (idx % 10007 == 0) c.sample(latticeWhat(F, in));
+      }, HC, 17);
+    }
+  }
+
+  // ---- (a2) every subset of the 3x3x2 slab (18 points: many collinear / coplanar points), sorted and
+  //      reversed; rotated (quick and thorough) and exact (thorough)
+  for (int fr = thorough ? 0 : 1; fr < 2 && !asanSubset; ++fr) {
+    const Frame& F = fr ? rotf : ident;
+    R.phase(std::string("hull-slab-subsets") + (fr ? "-rot" : ""), (1ull << 18) * 2, 4096, [&](uint64_t idx, Ctx& c) {
       uint64_t mask = idx / 2;
       std::vector<I3> in;
       for (int i = 0; i < 18; ++i)
         if (mask >> i & 1) in.push_back({i / 6, (i / 2) % 3, i % 2});
       if (idx & 1) std::reverse(in.begin(), in.end());
-      judgeLatticeHull(c, latticeWhat(ident, in), in, ident);
-      if (idx % 100003 == 0) c.sample(latticeWhat(ident, in));
-    }, HC, 22);
+      judgeLatticeHull(c, latticeWhat(F, in), in, F);
+      if (idx % 100003 == 0) c.sample(latticeWhat(F, in));
+    }, HC, 20);
   }
 
-  // ---- (a3) full lattice boxes {0..a}x{0..b}x{0..c}, a,b,c <= 5, in 8 deterministic orders
-  {
+  // ---- (a3) full lattice boxes {0..a}x{0..b}x{0..c}, a,b,c <= 5, in 8 deterministic orders, exact and rotated
+  for (int fr = 0; fr < 2; ++fr) {
+    const Frame& F = fr ? rotf : ident;
     const int nOrd = 8;
-    R.phase("hull-boxes", 6 * 6 * 6 * nOrd, 8, [&](uint64_t idx, Ctx& c) {
+    R.phase(std::string("hull-boxes") + (fr ? "-rot" : ""), 6 * 6 * 6 * nOrd, 8, [&](uint64_t idx, Ctx& c) {
       auto d = digits(idx, {6, 6, 6, nOrd});
       std::vector<I3> all;
       for (int x = 0; x <= d[0]; ++x)
@@ -635,7 +716,7 @@ int main(int argc, char** argv) {
           for (int z = 0; z <= d[2]; ++z) all.push_back({x, y, z});
       size_t n = all.size();
       std::vector<I3> in(n);
-      // order o: 0 sorted, 1 reversed, 2.. stride permutations i -> (i*stride + o) mod n with stride coprime to n
+      // order 0 sorted, 1 reversed, 2.. stride permutations i -> (i*stride + o) mod n with stride coprime to n
       static const int strides[] = {1, 1, 7, 11, 13, 17, 19, 23};
       if (d[3] == 0) in = all;
       else if (d[3] == 1) {
@@ -646,10 +727,11 @@ int main(int argc, char** argv) {
         while (std::__gcd(st, n) != 1) ++st;
         for (size_t i = 0; i < n; ++i) in[i] = all[(i * st + d[3]) % n];
       }
-      std::string what = "box=" + std::to_string(d[0]) + "x" + std::to_string(d[1]) + "x" + std::to_string(d[2]) + ",order=" + std::to_string(d[3]);
-      judgeLatticeHull(c, what, in, ident);
+      std::string what = (F.name.empty() ? "" : F.name + ",") + "box=" + std::to_string(d[0]) + "x" + std::to_string(d[1]) + "x" + std::to_string(d[2]) +
+                         ",order=" + std::to_string(d[3]);
+      judgeLatticeHull(c, what, in, F);
       if (idx % 97 == 0) c.sample(what);
-    }, HC);
+    }, HC, 16);
   }
 
   // ---- (b) Hull() of the seeds and Hull(vector) of ordered pairs
@@ -725,9 +807,9 @@ int main(int argc, char** argv) {
 
   // ---- (c) Minkowski sum / difference
   {
-    std::vector<const char*> MC = {"cases", "vertex_sums", "samples_in_operand", "samples_in_sum", "diff_empty", "diff_vertices",
+    std::vector<const char*> MC = {"cases", "vertex_sums", "samples_in_operand", "sample_plus_vertex", "samples_in_sum", "diff_empty", "diff_vertices",
                                    "samples_in_diff", "erosion_probes"};
-    const int n = thorough ? 21 : 13, nY = thorough ? 9 : 6;
+    const int n = asanSubset ? 7 : thorough ? 21 : 13, nY = asanSubset ? 4 : thorough ? 9 : 6;
     R.phase("minkowski", 5 * 5 * 2 * 2, 1, [&](uint64_t idx, Ctx& c) {
       static MinkShapes MS = makeMinkShapes();
       auto d = digits(idx, {5, 5, 2, 2});  // A, B, op, order
